@@ -224,7 +224,10 @@ def summary(chk, crate, f):
                           not any(x == y for p_ in payloads for y in walk(p_))]
                 # calls on the way are library conversions; a function of this workspace is not taken on trust
                 local_calls = [x[1] for x in walk(conv) if x[0] == "call" and str(x[1]).startswith(("zvt_feig_terminal::", "zvt::", "zvt_builder::"))]
-                good = bool(payloads) and not arith and not others and not local_calls
+                # ... nor a value chosen between alternatives on the way (a helper that formats one way or another depending
+                # on the value): the carrier of such a choice shows up as `one-of`
+                chosen = any(x[0] == "agg" and x[1] == "one-of" for x in walk(conv))
+                good = bool(payloads) and not arith and not others and not local_calls and not chosen
                 why = show(conv)[:140] + ("" if good else " (not a pure conversion of the reported field)")
         chk.require(good, "C08-b/summary-wiring", inst,
                     "summary field %s is %s, expected a conversion of the reported StatusInformation.%s" % (name, why, name),
